@@ -394,6 +394,12 @@ func TestC12(t *testing.T) {
 				a := rig.GenArch(d, op0, false)
 				a.E = d.Intn("emu", 4) == 0
 				c := c12RunCase{Init: rig.ArchToRaw(a), MemSeed: d.U32("memseed")}
+				switch d.Intn("prior-cycles", 4) { // the CPU has been running before: the budget counts from this call on
+				case 0:
+					c.Init.AllCycles = uint64(d.U32("allcycles"))
+				case 1:
+					c.Init.AllCycles = ^uint64(0) - uint64(d.Intn("allcycles-top", 5000))
+				}
 				// explore the program on the twin to learn its path
 				m := rig.NewMem(c.MemSeed)
 				twin.SetMem(m)
@@ -464,6 +470,9 @@ func TestC12(t *testing.T) {
 				}
 				if c.Max > 4000 {
 					c.Max = 4000
+				}
+				if ti > 0 && d.Intn("unlimited", 6) == 0 {
+					c.Max = ^uint64(0) - uint64(d.Intn("unl-k", 3)) // "no limit": the run ends by reaching the target
 				}
 				npc := d.Intn("n-onpc", 4)
 				for i := 0; i < npc; i++ {
